@@ -283,7 +283,7 @@ def main(argv=None):
         if b.get('case') is not None and b.get('size', 1 << 60) <= e['size']:
             case, detail = b['case'], b['detail']
         h = hashlib.sha1(sig.encode()).hexdigest()[:10]
-        path = os.path.join(VERIF_DIR, 'found', prop, '%s.json' % h)
+        path = os.path.join(os.environ.get('VERIF_FOUND_DIR') or os.path.join(VERIF_DIR, 'found'), prop, '%s.json' % h)
         jdump(dict(property=prop, signature=sig, stream=e['stream'], count=e['count'],
                    seed=env.SEED, tier=tier, detail=detail, case=case), path)
         violations.append((sig, path))
@@ -313,7 +313,7 @@ def main(argv=None):
     ev = dict(property_id=prop, tier=tier, seed=env.SEED, level=getattr(mod, 'LEVEL', 'exploration'),
               coverage=cov, assumptions=list(getattr(mod, 'ASSUMPTIONS', [])),
               wall_s=round(wall, 2), violations=len(violations))
-    jdump(ev, os.path.join(VERIF_DIR, 'evidence', '%s.json' % prop))
+    jdump(ev, os.path.join(os.environ.get('VERIF_EVIDENCE_DIR') or os.path.join(VERIF_DIR, 'evidence'), '%s.json' % prop))
     print('%s tier=%s seed=%d evaluations=%d executed=%d nontrivial=%d steps=%d wall=%.1fs' % (
         prop, tier, env.SEED, total.evaluations, total.executed, len(total.nt_hashes), total.steps, wall))
     if total.excluded:
